@@ -313,7 +313,7 @@ def parse_tlc(out):
     for m in re.finditer(r'<<\s*"REJECT",\s*(\d+)', flat):
         r["rejects"].append(int(m.group(1)))
     r["rejects"] = sorted(set(r["rejects"]))
-    if "POSTCONDITION" in out and ("violated" in out or "failed" in out.lower() or "false" in out.lower()):
+    if re.search(r"Postcondition \S+ .*is false", out) or ("POSTCONDITION" in out and "violated" in out):
         r["posterr"] = True
     m = re.search(r"Invariant (\S+) is violated", out)
     if m:
